@@ -6,8 +6,10 @@ import (
 	"context"
 	"encoding/json"
 	"fmt"
+	"os"
 	"strings"
 	"sync"
+	"sync/atomic"
 	"testing"
 	"time"
 
@@ -83,7 +85,11 @@ type c02Key struct {
 	cur            string          // the value of the last acknowledged Put ("" after an acknowledged Delete)
 	held           map[string]bool // members seen holding a copy of cur since that Put was acknowledged
 	delRearranging bool            // the last acknowledged Delete ran after a stop, while the partition's owner lists were being re-arranged
+	orphaned       map[string]bool // values of this key seen, after a stop and since the key's last acknowledged Put, in a fragment that its partition's primary owner does not list (scanOrphans)
 }
+
+// c02OrphansSeen counts (over the process) the unlisted copies the durability part has come across.
+var c02OrphansSeen int64
 
 func runC02(c *c02Case) (v *vcommon.Violation, nontrivial, inconclusive bool) {
 	opts := vOpts{Members: c.N, Replicas: c.R, Partitions: c.Partitions, ReadRepair: c.ReadRepair, FastDetect: true, TableSize: 1024}
@@ -181,7 +187,9 @@ func runC02(c *c02Case) (v *vcommon.Violation, nontrivial, inconclusive bool) {
 	}
 
 	var classify func(i int, got string) string
+	var scanOrphans func(at int)
 	checkAll := func(where string) *vcommon.Violation {
+		scanOrphans(step)
 		for i, k := range keys {
 			if !k.asserted {
 				continue
@@ -309,11 +317,86 @@ func runC02(c *c02Case) (v *vcommon.Violation, nontrivial, inconclusive bool) {
 		}
 		return len(views) > 1
 	}
+	// scanOrphans (after a stop) looks for copies that a Put or Delete executed right now would not reach: a copy in a
+	// backup fragment of a member that the partition's primary owner - the member that executes the operation, judged
+	// by its own table - does not list as a backup owner, or in a primary fragment of a member it lists neither as the
+	// owner nor as a previous owner. Such a copy is what the second recorded finding is about: the coordinator pruned
+	// the member from the list while its fragment was empty for a moment and a write, replicated under the table of a
+	// moment before, landed there (typically: the new primary owner's former backup fragment). No Put or Delete
+	// reaches it any more; the balancer moves it to the listed owners some time later, where it overrides nothing
+	// newer but brings a deleted key back. The values seen in such a place are remembered per key, from the key's
+	// last acknowledged Put on.
+	orphansSeen := 0
+	defer func() {
+		atomic.AddInt64(&c02OrphansSeen, int64(orphansSeen))
+		if d := os.Getenv("VERIF_SAVE_KNOWN"); d != "" && orphansSeen > 0 {
+			_ = os.WriteFile(fmt.Sprintf("%s/unlisted-%d-%d.json", d, os.Getpid(), time.Now().UnixNano()), vcommon.MustJSON(hist), 0o644)
+		}
+	}()
+	scanOrphans = func(at int) {
+		if stopsDone == 0 {
+			return
+		}
+		lv := cl.live()
+		unlistedBy := ""
+		for i, k := range keys {
+			hkey := partitions.HKey(name, keyName(i))
+			for _, mm := range lv {
+				for _, kind := range []partitions.Kind{partitions.PRIMARY, partitions.BACKUP} {
+					rc := decodeCopy(mm.db.dmap.VerifRaw(name, keyName(i), kind))
+					if !rc.present {
+						continue
+					}
+					// listed = some survivor that takes itself for the partition's primary owner - a member that
+					// would execute a Put or Delete of this key right now - has mm in its list for that kind of
+					// fragment, i.e. its Delete would reach this copy. (Two members that both take themselves
+					// for the owner, between two pushes, is the other half of the finding: rearranging().)
+					listed, executors := false, 0
+					for _, vv := range lv {
+						po := vv.db.primary.PartitionOwnersByHKey(hkey)
+						if len(po) == 0 || po[len(po)-1].Name != vv.name {
+							continue
+						}
+						executors++
+						owners := po
+						if kind == partitions.BACKUP {
+							owners = vv.db.backup.PartitionOwnersByHKey(hkey)
+						}
+						in := false
+						for _, o := range owners {
+							if o.Name == mm.name {
+								in = true
+							}
+						}
+						if in {
+							listed = true
+						} else {
+							unlistedBy = vv.name
+						}
+					}
+					if executors == 0 {
+						continue
+					}
+					if listed {
+						continue
+					}
+					if k.orphaned == nil {
+						k.orphaned = map[string]bool{}
+					}
+					if !k.orphaned[string(rc.value)] {
+						k.orphaned[string(rc.value)] = true
+						orphansSeen++
+						hist = append(hist, fmt.Sprintf("%d   unlisted copy: %s holds %q of %s in its %v fragment, and %s, which takes itself for the partition's primary owner, does not list it; copies: %s", at, mm.name, rc.value, keyName(i), kind, unlistedBy, copiesOf()))
+					}
+				}
+			}
+		}
+	}
 	// classify names the mechanism of a wrong read of key i when it is one of the two recorded ones
 	classify = func(i int, got string) string {
 		k := keys[i]
 		if k.admissible[""] && got != "" && (len(k.admissible) == 1 || k.delRearranging) {
-			if k.delRearranging {
+			if k.delRearranging || k.orphaned[got] {
 				return "resurrected:delete-while-owner-lists-rearranged"
 			}
 			return "resurrected"
@@ -393,6 +476,7 @@ func runC02(c *c02Case) (v *vcommon.Violation, nontrivial, inconclusive bool) {
 					if r.err == "" {
 						k.admissible = map[string]bool{val: true}
 						k.everSet = true
+						k.orphaned = nil
 					} else {
 						k.admissible[val] = true
 					}
@@ -402,6 +486,7 @@ func runC02(c *c02Case) (v *vcommon.Violation, nontrivial, inconclusive bool) {
 					k.admissible[val] = true
 					if r.err == "" {
 						k.admissible = map[string]bool{val: true}
+						k.orphaned = nil
 					}
 					// wait until the harness' bookkeeping sees the victim as stopped
 					for j := 0; j < 500 && victim.alive; j++ {
@@ -425,7 +510,7 @@ func runC02(c *c02Case) (v *vcommon.Violation, nontrivial, inconclusive bool) {
 						k2.asserted = len(survivors) >= c.R
 						k2.everSet = true
 						nontrivial = true
-						k2.cur, k2.held, k2.delRearranging = val, nil, false
+						k2.cur, k2.held, k2.delRearranging, k2.orphaned = val, nil, false, nil
 						noteHolders(kk)
 					} else {
 						k2.admissible[val] = true
@@ -498,6 +583,7 @@ func runC02(c *c02Case) (v *vcommon.Violation, nontrivial, inconclusive bool) {
 			} else if r.err != "" {
 				return bad("read-error", "Get(%s) from %s failed: %s", key, m.name, r.err), nontrivial, false
 			}
+			scanOrphans(i)
 			if k.asserted && !k.admissible[got] {
 				hist = append(hist, fmt.Sprintf("%d   copies at the failing read: %s", i, copiesOf()))
 				return bad(classify(op.K, got), "key %s reads %q from %s; admissible after the acknowledged history: %v (R=%d, %d members stopped)", key, got, m.name, keysOf(k.admissible), c.R, stopsDone), nontrivial, false
@@ -523,6 +609,12 @@ func runC02(c *c02Case) (v *vcommon.Violation, nontrivial, inconclusive bool) {
 			}
 			if only != kk.cur || (only == "" && op.Op == "del" && ki == op.K) {
 				kk.cur, kk.held = only, nil
+				// unreachable copies count from the key's last acknowledged Put on: what was out of reach before it may
+				// have been brought to a listed owner since (the scan below looks again). An acknowledged Delete keeps
+				// the note: the copy it could not reach may be on its way to a listed owner right now.
+				if only != "" {
+					kk.orphaned = nil
+				}
 				// the recorded finding is about copies the deleting owner does not list (or that are in flight); a
 				// copy that is still there, right after the acknowledged Delete, on a member the owner DOES list is
 				// something else
@@ -531,6 +623,9 @@ func runC02(c *c02Case) (v *vcommon.Violation, nontrivial, inconclusive bool) {
 			if op.Op != "get" && ki == op.K || op.Op == "stop" {
 				noteHolders(ki)
 			}
+		}
+		if op.Op == "put" || op.Op == "del" {
+			scanOrphans(i)
 		}
 	}
 	step = len(c.Ops) - 1
@@ -553,7 +648,9 @@ func TestVerifC02(t *testing.T) {
 		}
 		for i := 0; i < 3; i++ {
 			got, _, inc := runC02(c)
-			if inc {
+			if inc || (got != nil && vFlapsSinceMark() > 0) {
+				// as in the search below: a member the harness had not stopped was dropped by the failure detector
+				fmt.Printf("VERIF-INCONCLUSIVE replay %d (flaps since the case began: %d)\n", i, vFlapsSinceMark())
 				continue
 			}
 			if got != nil {
@@ -565,7 +662,10 @@ func TestVerifC02(t *testing.T) {
 		return
 	}
 	col := vcommon.NewCollector("C02", "durability")
-	t.Cleanup(col.Flush)
+	t.Cleanup(func() {
+		col.Label("unlisted-copies-seen", atomic.LoadInt64(&c02OrphansSeen))
+		col.Flush()
+	})
 	rapid.Check(t, func(rt *rapid.T) {
 		c := genC02(rt)
 		v, nt, inc := runC02(c)
@@ -583,6 +683,10 @@ func TestVerifC02(t *testing.T) {
 		if v != nil {
 			if vcommon.Known(v.Class) {
 				col.ExcludedKnown()
+				// diagnosis only: VERIF_SAVE_KNOWN=<dir> keeps the histories of the cases that ended in a recorded finding
+				if d := os.Getenv("VERIF_SAVE_KNOWN"); d != "" {
+					_ = os.WriteFile(fmt.Sprintf("%s/known-%d-%d.json", d, os.Getpid(), time.Now().UnixNano()), vcommon.MustJSON(v), 0o644)
+				}
 				return
 			}
 			vcommon.SaveViolation(v)
